@@ -13,6 +13,7 @@ const char *h_regex_pattern(const regex_t *preg);
 void h_alloc_arm(long fail_at, int track_sites);
 long h_alloc_count(void);
 void h_execlog_reset(void);
+extern int h_exec_status;
 char *h_execlog_take(void);
 const char *h_dns_last_qname(void);
 int h_dns_last_qtype(void);
